@@ -406,10 +406,32 @@ inductive CliErr where
   | CouldNotRetrieveFunction
   deriving DecidableEq, Repr
 
-inductive ExitCode where
-  | SUCCESS
-  | FAILURE
+/-- `std::process::ExitCode`, as the status the parent process observes (`0 … 255`).
+    The property speaks of "exits with failure": a non-zero status (`failed`).  The
+    model keeps the number, so that a status computed from a count (`ExitCode::from(n as u8)`)
+    is inside the model and `cli_exit_*` decide whether it is zero. -/
+structure ExitCode where
+  status : Nat
   deriving DecidableEq, Repr
+
+namespace ExitCode
+/-- `ExitCode::SUCCESS` -/
+def SUCCESS : ExitCode := ⟨0⟩
+/-- `ExitCode::FAILURE` -/
+def FAILURE : ExitCode := ⟨1⟩
+
+/-- what `ExitCode::from` takes: a `u8` (a literal, or a cast integer) -/
+class ToStatus (α : Type) where
+  toStatus : α → Nat
+instance : ToStatus Nat := ⟨fun n => n % 256⟩
+instance {s w} : ToStatus (RInt s w) := ⟨fun n => (n.val % 256).toNat⟩
+
+/-- `ExitCode::from(n)` -/
+def ofStatus {α} [ToStatus α] (a : α) : ExitCode := ⟨ToStatus.toStatus a⟩
+
+/-- the process reports failure to its parent -/
+def failed (c : ExitCode) : Bool := c.status != 0
+end ExitCode
 
 abbrev Cli := Run CliErr
 
